@@ -32,6 +32,13 @@ fn build(hist: &[Json]) -> (Module, FunctionId) {
         let b = m.locals.add(ValType::I64);
         let _unused = m.locals.add(ValType::F32);
         let p0 = m.locals.add(ValType::I32);
+        // two tables, two memories, a passive element and a passive data segment for the two-operand instructions
+        let t0 = m.tables.add_local(false, 1, None, RefType::Funcref);
+        let t1 = m.tables.add_local(false, 2, None, RefType::Funcref);
+        let m0 = m.memories.add_local(false, false, 1, None, None);
+        let m1 = m.memories.add_local(false, false, 2, None, None);
+        let e0 = m.elements.add(ElementKind::Passive, ElementItems::Expressions(RefType::Funcref, vec![ConstExpr::RefNull(RefType::Funcref)]));
+        let d0 = m.data.add(DataKind::Passive, vec![7]);
         let mut fb = FunctionBuilder::new(&mut m.types, &[ValType::I32, ValType::I32], &[]);
         let mut real: Vec<InstrSeqId> = vec![fb.func_body_id()];
         for (k, e) in hist.iter().enumerate() {
@@ -46,17 +53,42 @@ fn build(hist: &[Json]) -> (Module, FunctionId) {
                 "unit" => {
                     let s = real[sq as usize];
                     let v = e["v"].as_i64().unwrap();
-                    let (i1, i2): (Instr, Instr) = match e["kind"].as_str().unwrap() {
-                        "set32" => (Const { value: Value::I32(v as i32) }.into(), LocalSet { local: a }.into()),
-                        "set64" => (Const { value: Value::I64(v) }.into(), LocalSet { local: b }.into()),
-                        "getq" => (LocalGet { local: p1 }.into(), Drop {}.into()),
-                        _ => (LocalGet { local: p0 }.into(), Drop {}.into()),
+                    let zero = || -> Instr { Const { value: Value::I32(0) }.into() };
+                    let kind = e["kind"].as_str().unwrap();
+                    // the two-operand instructions: through the builder's own method when appending (its parameter order is
+                    // (source, destination)), as an IR struct with named fields when inserting
+                    let end = at_end(&mut fb, s);
+                    if end && ["tcopy", "mcopy"].contains(&kind) {
+                        let mut sb = fb.instr_seq(s);
+                        sb.i32_const(0).i32_const(0).i32_const(0);
+                        if kind == "tcopy" {
+                            sb.table_copy(t0, t1);
+                        } else {
+                            sb.memory_copy(m1, m0);
+                        }
+                        continue;
+                    }
+                    let ins: Vec<Instr> = match kind {
+                        "set32" => vec![Const { value: Value::I32(v as i32) }.into(), LocalSet { local: a }.into()],
+                        "set64" => vec![Const { value: Value::I64(v) }.into(), LocalSet { local: b }.into()],
+                        "getq" => vec![LocalGet { local: p1 }.into(), Drop {}.into()],
+                        "tcopy" => vec![zero(), zero(), zero(), TableCopy { src: t0, dst: t1 }.into()],
+                        "mcopy" => vec![zero(), zero(), zero(), MemoryCopy { src: m1, dst: m0 }.into()],
+                        "tinit" => vec![zero(), zero(), zero(), TableInit { table: t1, elem: e0 }.into()],
+                        "minit" => vec![zero(), zero(), zero(), MemoryInit { memory: m1, data: d0 }.into()],
+                        _ => vec![LocalGet { local: p0 }.into(), Drop {}.into()],
                     };
-                    if at_end(&mut fb, s) {
+                    if end {
                         // the append path
-                        fb.instr_seq(s).instr(i1).instr(i2);
+                        let mut sb = fb.instr_seq(s);
+                        for i in ins {
+                            sb.instr(i);
+                        }
                     } else {
-                        fb.instr_seq(s).instr_at(pos, i1).instr_at(pos + 1, i2);
+                        let mut sb = fb.instr_seq(s);
+                        for (j, i) in ins.into_iter().enumerate() {
+                            sb.instr_at(pos + j, i);
+                        }
                     }
                 }
                 "block" | "loop" => {
